@@ -36,6 +36,10 @@ CLAIMS = {
          "TLC-enumerated behaviours replayed on the implementation (trace validation of slot choice)"),
  "C20": ("exploration", "spec/Prng.tla written from the published splitmix / xoshiro algorithms and anchored by published values; TLC walks the generators step by step and compares seeded state, outputs and jump() of all four bundled generators", "4 C20",
          "TLC as executable reference (state machine per generator step)"),
+ "C10": ("exploration", "differential exploration judged by the deterministic specification: instances placement-constructed in differently pre-filled storage, copies driven in lock-step with their originals, and the built-in generator's choices compared with the stream derived from spec/Prng.tla; open finding D11", "4 C10",
+         "trace validation of fill/copy variants + TLC reference stream for the built-in generator"),
+ "C11": ("exploration", "the specification supplies the histories (over-capacity queues and plans, over-long replays, copies) and decides that rejected operations leave the state as specified; AddressSanitizer/UBSan, the assertion hook (HFSM2_VERIF) and an allocation counter observe the replays", "4 C11",
+         "sanitizer / assertion-hook / allocation-counter observers on specification-driven conformance replays"),
  "C16": ("model_checking", "structure()[i].isActive = isActive(i) monitor and functional equality of activityHistory with the saturating-counter rule after every call", "4 C16",
          "trace validation (monitor + functional)"),
 }
